@@ -100,7 +100,10 @@ func (Engine) Generate(prop, tier string, seed, run uint64) json.RawMessage {
 	case "C05":
 		p.Hist = []History{{Batches: chronological(nf, r)}}
 	case "C08":
-		if nf > 1 && r.IntN(5) == 0 {
+		if r.IntN(3) == 0 {
+			p.Net.Jumble = true
+		}
+		if nf > 1 && r.IntN(3) == 0 {
 			// capture files that overlap in time (the comparison is between import
 			// histories of the same files, so equal timestamps in two files are
 			// ordered the same way in every history)
